@@ -406,6 +406,12 @@ func (e *Exec) derefCell(v Val, env *Env) Val {
 	if v.Addr != nil && (v.Addr.Kind == "cell" || v.Addr.Kind == "global") {
 		return Val{T: e.loadAddr(v.Addr, env.st), S: e.sortOf(v.Addr.Ty), Ty: v.Addr.Ty}
 	}
+	if v.Addr != nil && v.Addr.Kind == "row" && v.Addr.Ty != nil {
+		// a local array variable: its value is the row it lives in
+		if _, isArr := v.Addr.Ty.Underlying().(*types.Array); isArr {
+			return Val{T: e.loadAddr(v.Addr, env.st), S: e.sortOf(v.Addr.Ty), Ty: v.Addr.Ty}
+		}
+	}
 	return v
 }
 
